@@ -176,7 +176,20 @@ def build_machine(scn, lay):
         if not lst:
             return None
         return lst[0] if len(lst) == 1 and scn.get("falsy_callables") else lst
-    if scn.get("via_any"):
+    deco_ok = scn.get("event_deco") and scn["entries"] and all(
+        en["kind"] in ("callable", "method") and (en["kind"] == "callable" or scn["names"][en["name"]][0][0] == "machine")
+        for en in scn["entries"])
+    if deco_ok:
+        # the guards are attached with the decorators of an explicit `Event` object: `@go.cond` / `@go.unless`
+        from statemachine import Event
+        ev = Event(a.to(b), name="go")
+        for en in scn["entries"]:
+            fn = free[en["name"]] if en["kind"] == "callable" else ns[en["name"]]
+            r = getattr(ev, en["group"])(fn)
+            if en["kind"] == "method":
+                ns[en["name"]] = r
+        ns["go"] = ev
+    elif scn.get("via_any"):
         ns["go"] = b.from_.any(cond=arg(conds), unless=arg(unlesses))
     else:
         ns["go"] = a.to(b, cond=arg(conds), unless=arg(unlesses))
